@@ -16,8 +16,10 @@
 /* The serialized seed. The contents are platform-independent. */
 typedef uint8_t polyseed_storage[POLYSEED_SIZE];
 
-/* The maximum possible length of a mnemonic phrase */
-#define POLYSEED_STR_SIZE 360
+/* The maximum possible length of a mnemonic phrase, including the
+   terminating null. The longest phrase has 16 of the longest Korean words
+   in the decomposed (NFKD) form: 16 * 33 bytes + 15 separators. */
+#define POLYSEED_STR_SIZE 544
 
 /* Mnemonic phrase buffer */
 typedef char polyseed_str[POLYSEED_STR_SIZE];
